@@ -38,6 +38,15 @@ Fixpoint collect_old (cur : res) (rs : list res) : res :=
       end
   end.
 
+(* an index entry whose media type the client does not know (image.go, default branch of the entry switch).  As
+   REPAIRED: the entry is first fetched as a manifest; if the source serves it as one the image copy decides, a
+   cancelled context is reported, anything else is copied as a blob.  Before the repair the image copy was tried
+   and ANY error of it led to the blob copy - which succeeds for a layout source, where a manifest is also a blob file *)
+Definition entry_unknown (serves_manifest ctx_cancelled : bool) (img blob : res) : res :=
+  if serves_manifest then img else if ctx_cancelled then Some ECanceled else blob.
+Definition entry_unknown_old (img blob : res) : res :=
+  match img with None => None | Some _ => blob end.
+
 (* ---------- the monitor ---------- *)
 Inductive ev :=
 | EBlob (d : dg)                                  (* blob d committed at the target (upload or mount) *)
